@@ -831,3 +831,119 @@ for _f in RULES:
     _f.needs = ('core',)
 MATRIX_RULES = [r1_clamp_before_slice, r2_refusal, r3_consistency, r4_range_only_partial_ops]
 EXTRA_CONFIGS = ['core-serde']
+
+
+# ---------------------------------------------------------------------------------------------
+# R6: hanging indentation of item bodies - Typst derives the nesting of list / enum / term items from indentation, so the body of an item
+#     that range formatting re-renders on its own has to be indented as the whole-document printer indents it
+# ---------------------------------------------------------------------------------------------
+ITEM_KINDS = ('ListItem', 'EnumItem', 'TermItem')
+
+
+def _printer_item_nests(w):
+    """{item kind: number of nest() wrappers the item converter puts around the conversion of its Markup body}"""
+    import grammar
+    import sites as sm
+    from kindflow import Doc, Node
+    se = sm.SiteEvaluator(w)
+    out = {}
+
+    def depth_of(doc, pred, d=0):
+        best = None
+        for a in doc.atoms:
+            if a[0] == 'wrap':
+                for sub in a[2:]:
+                    if isinstance(sub, Doc):
+                        x = depth_of(sub, pred, d + (1 if a[1] == 'nest' else 0))
+                        if x is not None:
+                            best = x if best is None else min(best, x)
+            elif a[0] == 'alt':
+                for sub in a[1:3]:
+                    if isinstance(sub, Doc):
+                        x = depth_of(sub, pred, d)
+                        if x is not None:
+                            best = x if best is None else min(best, x)
+            elif pred(a):
+                best = d if best is None else min(best, d)
+        return best
+    for b, i, kinds in se.converters():
+        for K in kinds:
+            if K not in ITEM_KINDS or not se.has_node_loop(b):
+                continue
+            res = sm.evaluate_sequence(w, b, i, K, [Node('child', 'Markup'), 'END'], with_wholes=True)
+            for item in res or []:
+                if len(item) > 3 and isinstance(item[3], tuple) and item[3] and item[3][0] == 'ended' and isinstance(item[3][1], Doc):
+                    d = depth_of(item[3][1], lambda a: a[0] == 'conv' and isinstance(a[2], Node) and a[2].kind == 'Markup' and a[2].tag == 'child')
+                    if d is not None:
+                        out[K] = d if K not in out else min(out[K], d)
+    return out
+
+
+def r6_item_body_indent(w):
+    r = RuleResult('C13.R6', 'the body of a list / enum / term item re-rendered by range formatting is nested as the printer nests it (one unit below the marker)', floor=4)
+    from rules import c19
+    nests = _printer_item_nests(w)
+    for K in ITEM_KINDS:
+        cons = {'printer': 'item converter', 'item': K, 'nest_wrappers_around_body': nests.get(K)}
+        if nests.get(K) is None:
+            r.bad(cons, 'item-indent|printer|%s' % K, 'the printer\'s conversion of a %s could not be evaluated' % K)
+        else:
+            r.ok(cons, 'the whole-document printer indents the body %d unit(s) below the item' % nests[K])
+    need = {K for K, n in nests.items() if n}
+    b = _entry(w)
+    v = BodyView(w, b)
+    kinds = c19.syntax_kind_names(w)
+    unit_nests = []
+    for bi, t in b.calls():
+        if not (callee_path(t) or '').endswith('DocBuilder::<\'a, D, A>::nest') and not (callee_path(t) or '').endswith('::nest'):
+            continue
+        amount = v.describe_operand(t['args'][1], 3)
+        if 'Config.tab_spaces' not in amount:
+            continue
+        covered = set()
+        for atom, vals, sw in v.guards(bi):
+            if vals != {True} or '::parent(' not in atom:
+                continue
+            # the closure handed to is_some_and: for which parent kinds does it answer true?
+            for o in v.pv.peel(v.pv.origins_operand(b.blocks[sw]['term']['discr'])):
+                if o[0] != 'call':
+                    continue
+                ct = v.pv.call_term(o)
+                for a in ct['args'][1:]:
+                    for x in v.pv.peel(v.pv.origins_operand(a)):
+                        if x[0] == 'agg' and v.pv.agg_rvalue(x).get('ak') == 'closure':
+                            cb = w.bodies.get(v.pv.agg_rvalue(x)['def']['id'])
+                            if cb is None:
+                                continue
+                            cv = BodyView(w, cb)
+                            for cbi, blk in enumerate(cb.blocks):
+                                tt = blk['term']
+                                if tt['t'] == 'switch' and 'kind' in cv.switch_atom(cbi):
+                                    by = {}
+                                    for val, tgt in tt['targets']:
+                                        by.setdefault(tgt, set()).add(kinds.get(val))
+                                    for tgt, ks in by.items():
+                                        la = [s for s in cb.blocks[tgt]['stmts'] if s['s'] == 'assign' and s['p']['l'] == 0]
+                                        if la and la[-1]['rv']['r'] == 'use' and la[-1]['rv']['op'].get('int') == 1:
+                                            covered |= ks
+        unit_nests.append((bi, covered))
+    got = set()
+    for bi, ks in unit_nests:
+        got |= ks
+    cons = {'range_entry': b.short, 'unit_nest_for_parent_kinds': sorted(map(str, got)), 'printer_nests_body_of': sorted(need)}
+    if got == need and need:
+        r.ok(cons, 'one more unit of indentation exactly when the covering node is the body of an item')
+    elif need - got:
+        r.bad(cons, 'item-indent|range-entry',
+              'range formatting indents the re-rendered text by the blanks in front of the line only; when the covering node is the body of a %s the printer indents continuation '
+              'lines one unit below the marker, so the returned text puts them at the marker\'s column and they leave the item (`- a⏎  - b⏎    continued` with the range in item b -> '
+              '`continued` at 2 blanks): the spliced document has a different tree' % '/'.join(sorted(need - got)), b.loc())
+    else:
+        r.bad(cons, 'item-indent|range-entry|extra', 'range formatting adds a unit of indentation for parent kinds %s for which the printer adds none' % sorted(map(str, got - need)), b.loc())
+    return r
+
+
+RULES = [r1_clamp_before_slice, r2_refusal, r3_consistency, r4_range_only_partial_ops, r5_mode_agreement, r6_item_body_indent]
+for _f in RULES:
+    _f.needs = ('core',)
+MATRIX_RULES = [r1_clamp_before_slice, r2_refusal, r3_consistency, r4_range_only_partial_ops]
